@@ -192,3 +192,15 @@ func (e *end) RemoteAddr() net.Addr {
 func (e *end) SetDeadline(time.Time) error      { return nil }
 func (e *end) SetReadDeadline(time.Time) error  { return nil }
 func (e *end) SetWriteDeadline(time.Time) error { return nil }
+
+// Idle reports whether the given endpoint (client side or server side) is blocked in Read with
+// nothing left to read - i.e. it has consumed everything its peer wrote.
+func (l *Link) Idle(clientSide bool) bool {
+	side := 1
+	if clientSide {
+		side = 0
+	}
+	l.mu.Lock()
+	defer l.mu.Unlock()
+	return l.waiting[side] && len(l.buf[1-side]) == 0
+}
